@@ -1,7 +1,7 @@
 (* generated: tie of one numeric kernel to the hand model *)
 From Coq Require Import ZArith List Bool String.
 Import ListNotations.
-From OSQ Require Import Num IR Construct DefaultTable Matrix Check ABA Merge McKay CNOTDec Constants ConstCheck Kernels KernelTactics.
+From OSQ Require Import Num IR Construct DefaultTable Matrix Check ABA Merge McKay CNOTDec Constants Kernels KernelTactics.
 
 Lemma bsr_eq_ok : forall (T : Type) (N : Num T) (q1 : Z) (ax1 : axis3 T) (a1 p1 : T) (q2 : Z) (ax2 : axis3 T) (a2 p2 : T),
   gen_bsr_eq N q1 ax1 a1 p1 q2 ax2 a2 p2 = bsr_eq N q1 ax1 a1 p1 q2 ax2 a2 p2.
